@@ -70,6 +70,10 @@ def _threshold_integrity(ctx, rid="R4"):
             elif isinstance(par, ast.Call) and x in par.args:
                 cn = (call_name(par) or callee_attr(par) or "")
                 ok = cn.split(".")[-1] in ("get_error", "scf_forward0", "scf_forward1", "scf_forward2", "scf_forward3", "scfapply", "save_for_backward", "as_tensor", "apply") or cn.startswith("scf_forward")
+                if not ok and isinstance(par.func, ast.Name):
+                    # a callee chosen through a local: every value the local is bound to must be one of the accepted callees (or None)
+                    binds = [a_.value for a_ in ast.walk(f) if isinstance(a_, ast.Assign) and any(isinstance(t_, ast.Name) and t_.id == par.func.id for t_ in a_.targets)]
+                    ok = bool(binds) and all((isinstance(b_, ast.Name) and (b_.id.startswith("scf_forward") or b_.id == "get_error")) or (isinstance(b_, ast.Constant) and b_.value is None) for b_ in binds)
             elif isinstance(par, ast.keyword):
                 ok = par.arg in ("eps",)
             elif isinstance(par, (ast.FormattedValue, ast.JoinedStr)):
